@@ -1,5 +1,6 @@
 import HexVerif.Lemmas.XcmpJunk
 import HexVerif.Lemmas.AsmJunk
+import HexVerif.Lemmas.XcmpSymJunk
 /-!
   Property C11: compilation is a deterministic function of the source - the part shown by proof.
 
@@ -19,10 +20,17 @@ import HexVerif.Lemmas.AsmJunk
   hexasm (`Hex.Asm` below): `Asm.run`, the model of the whole assembler from the source bytes, with
   the same treatment of its lexer's `value`: `C11_asm_junk`.
 
-  What is NOT covered by proof: xcmp's stages after the parser (`ValDecl::exprValue`, repaired by the
-  D13 `fix:`; `Symbol::stackOffset`; `CodeBuffer::currentFrame`; ordered containers and label/constant/
-  string counters) and hexasm's `InstrLabel::labelValue` (set by the model's `resolve` before use).
-  Those are covered by the perturbation matrix of `./check C11` on the real code.
+  * `C11_compile_junk` - the stages after the parser: `Symbol::stackOffset` is not initialised by the C++
+                         constructor; the model's `createSymbolsJ j` gives every new symbol the junk `j`, and
+                         the whole compilation (`compileJ`: symbols, ConstProp, OptimiseExpr, code generation,
+                         lowering, peephole, assembly - binary or diagnostic) is independent of it, for every
+                         program whose procedure names are distinct (others are rejected before the field is
+                         read); `C11_stages_junk` is the same for the intermediate listings.
+
+  What is NOT covered by proof: `ValDecl::exprValue` (repaired by the D13 `fix:`), `CodeBuffer::currentFrame`,
+  ordered containers and label/constant/string counters (deterministic by construction in the model, which is
+  compared with the real xcmp by runner/c01model.py) and hexasm's `InstrLabel::labelValue` (set by the model's
+  `resolve` before use).  Those are covered by the perturbation matrix of `./check C11` on the real code.
 -/
 namespace Hex.Properties.C11
 open Hex Hex.Xcmp
@@ -33,6 +41,17 @@ theorem C11_tokens_junk (j1 j2 : Word) (src : List Byte) : tokensOutputJ j1 src 
 theorem C11_front_junk (j1 j2 : Word) (src : List Byte) (fuel : Nat) :
     parseProgramJ j1 src fuel = parseProgramJ j2 src fuel :=
   parseProgramJ_indep j1 j2 src fuel
+
+/-- The compiler after the parser: the uninitialised `Symbol::stackOffset` never reaches the output. -/
+theorem C11_compile_junk (j1 j2 : Int) (P : X.Program) (h : (P.procs.map (·.name)).Nodup) :
+    Xcmp.compileJ j1 P = Xcmp.compileJ j2 P := Xcmp.compileJ_indep j1 j2 P h
+
+theorem C11_compile_is_compileJ (j : Int) (P : X.Program) (h : (P.procs.map (·.name)).Nodup) :
+    Xcmp.compileJ j P = Xcmp.compile P := Xcmp.compileJ_eq_compile j P h
+
+theorem C11_stages_junk (j1 j2 : Int) (P : X.Program) (h : (P.procs.map (·.name)).Nodup) :
+    ERel (fun s1 s2 => ORel s1.cg s2.cg ∧ s1.lowered = s2.lowered ∧ s1.optimised = s2.optimised)
+      (stagesJ j1 P) (stagesJ j2 P) := Xcmp.stagesJ_indep j1 j2 P h
 
 /-- A batch of compilations in one process, as the model sees it. -/
 def compileAll (srcs : List (List Byte)) : List (Except PErr X.Program) := srcs.map parse
